@@ -1077,8 +1077,16 @@ class Rewriter:
             return t
         raise ExtractionBreak("division stub is declared through rules in this version")
 
+    def hook(self, name, t):
+        plug = self.unit.get('_plugin')
+        if plug is not None and hasattr(plug, name):
+            r = getattr(plug, name)(t, self)
+            return t if r is None else r
+        return t
+
     def rewrite(self, body):
         t = list(body)
+        t = self.hook('hook_begin', t)
         t = self.p_qualifiers(t)
         t = self.p_rules(t, 'pre')
         t = self.p_typemap(t)
@@ -1087,14 +1095,17 @@ class Rewriter:
         t = self.p_drops(t)
         t = self.p_decls(t)
         t = self.p_members(t)
+        t = self.hook('hook_mid', t)
         t = self.p_rules(t, 'mid')
         t = self.p_methods(t)
         t = self.p_rules(t, 'post')
         t = self.p_exceptions(t)
         t = self.p_returns(t)
         t = self.p_refs(t)
+        t = self.hook('hook_before_loops', t)
         t = self.p_loops(t)
         t = self.p_rules(t, 'final')
+        t = self.hook('hook_end', t)
         return t
 
 
